@@ -162,8 +162,11 @@ class C12(core.Property):
     bkey, backend = self.backend_of(kind, case)
     key = (kind, keyed, lam, bkey, tuple(copt), tuple(sopt), case['batching'], case.get('mu'), case.get('lr'),
            case.get('clip'))
-    if key in self._algs:
+    shared = getattr(self, '_shared', None) if kind in ('fedprox0', 'fedprox') else None
+    if shared is None and key in self._algs:
       return self._algs[key]
+    if shared is not None and key in shared['algs']:
+      return shared['algs'][key]
     m, hp = self.mods, self.hparams(case['batching'])
     php = self.cds.PaddedBatchHParams(batch_size=2)
     reg = self.reg[lam]
@@ -171,7 +174,9 @@ class C12(core.Property):
       if kind == 'fedavg':
         a = m['fed_avg'].federated_averaging(self.grad_fn[(keyed, lam)], self.mk_opt(copt), self.mk_opt(sopt), hp)
       elif kind in ('fedprox0', 'fedprox'):
-        a = m['fed_prox'].fed_prox(self.pel[keyed], self.mk_opt(copt), self.mk_opt(sopt), hp, case['mu'])
+        # in a sweep every fed_prox is built from the same loss function object and the same client Optimizer object
+        a = m['fed_prox'].fed_prox(self.pel[keyed], shared['copt'] if shared else self.mk_opt(copt), self.mk_opt(sopt), hp,
+                                   case['mu'])
       elif kind == 'hyp1':
         a = m['hyp_cluster'].hyp_cluster(self.pel[keyed], self.mk_opt(copt), self.mk_opt(sopt), php, hp,
                                          regularizer=reg)
@@ -188,12 +193,15 @@ class C12(core.Property):
                                                                 self.mk_opt(sopt), hp, 0.5)
       else:
         raise ValueError(kind)
-    self._algs[key] = a
+    if shared is not None:
+      shared['algs'][key] = a
+    else:
+      self._algs[key] = a
     return a
 
   # ------------------------------------------------------------------ generation
   def gen_cases(self, rng, tier):
-    n = 102 if tier == "quick" else 2400
+    n = 96 if tier == "quick" else 2400
     yield {'kind': 'mime_empty', 'which': 'mime'}
     yield {'kind': 'mime_empty', 'which': 'mimelite'}
     for i in range(n):
@@ -236,11 +244,27 @@ class C12(core.Property):
         case['batching'] = rng.choice(['e1', 'e2', 'e1d'])
         if rng.random() < 0.5:
           case['rounds'] = [sorted(co, key=lambda c: len(c['y'])) for co in rounds]
+      if kind != 'hyp1' and case['backend'] != 'pmap' and rng.random() < 0.3:
+        # the same client listed twice in a cohort (same id, same data, its own key): FedAvg counts every listed entry
+        # in numerator and denominator, so must every reduction
+        ri = rng.randrange(len(case['rounds']))
+        co = list(case['rounds'][ri])
+        if co:
+          co.insert(rng.randrange(len(co) + 1), dict(rng.choice(co)))
+          case['rounds'] = case['rounds'][:ri] + [co] + case['rounds'][ri + 1:]
       if kind == 'fedprox0':
         case['mu'] = 0.0
       elif kind == 'fedprox':
         case['mu'] = rng.choice([0.5, 1.0, 0.25])
-      elif kind == 'hyp1':
+      if kind in ('fedprox0', 'fedprox') and rng.random() < 0.6:
+        # several fed_prox algorithms built one after the other from the SAME per_example_loss function object and the
+        # SAME client Optimizer object, with different proximal weights in varying order (a sweep over mu): each one
+        # must be the FedAvg of its own augmented loss
+        others = rng.sample([m for m in (0.0, 0.5, 1.0, 2.0) if m != case['mu']], rng.choice([1, 2]))
+        mus = others + [case['mu']]
+        rng.shuffle(mus)
+        case['mus'] = mus
+      if kind == 'hyp1':
         if rng.random() < 0.5:
           case['sopt'] = list(OPTS[rng.choice(['B', 'D'])][1])
       elif kind == 'mimelite':
@@ -279,6 +303,9 @@ class C12(core.Property):
       yield {**case, 'lam': 0.0}
     if case.get('clip') is not None:
       yield {**case, 'clip': None}
+    if case.get('mus') and len(case['mus']) > 1:
+      for i in range(len(case['mus'])):
+        yield {**case, 'mus': case['mus'][:i] + case['mus'][i + 1:]}
     if case.get('backend', 'jit') != 'jit':
       yield {**case, 'backend': 'jit'}
     elif False:
@@ -351,7 +378,7 @@ class C12(core.Property):
 
   def rows(self, b):
     """real rows `x ++ [y]` of a (possibly padded) batch"""
-    mask = b.get('__mask__')
+    mask = b.get(self.cds.EXAMPLE_MASK_KEY)
     res = []
     for i in range(b['x'].shape[0]):
       if mask is None or bool(mask[i]):
@@ -446,28 +473,51 @@ class C12(core.Property):
 
   # ------------------------------------------------------------------ evaluation
   def _eval_empty(self, case, ctx):
-    """an empty cohort: Mime / MimeLite raise TypeError, the model answers err (error enum correspondence)"""
+    """An empty cohort is outside the property (a round trains sampled clients).  The model records that the code
+    rejects it; this probe only ties that branch to the code: the implementation either rejects the call (any
+    exception) or returns a finite state — neither is an alarm."""
     which = case['which']
     c = {'kind': which, 'keyed': False, 'copt': ['sgd', 0.25, 0.0], 'sopt': ['sgd', 1.0, 0.0], 'batching': 'e1',
          'lr': 1.0}
     alg = self.alg(which, c)
     st = alg.init({'w': self.jnp.asarray([1.0, -1.0], dtype=self.jnp.float32)})
     try:
-      alg.apply(st, [])
-      impl = 'ok'
-    except TypeError:
+      new, _ = alg.apply(st, [])
+      impl = 'ok' if np.all(np.isfinite(np.asarray(new.params['w']))) else 'non-finite'
+    except Exception:   # noqa  (which exception is not specified)
       impl = 'err'
-    except Exception as e:   # noqa
-      impl = type(e).__name__
     op = 'c12.mime' if which == 'mime' else 'c12.mimelite'
     args = [False] + ([None] if which == 'mimelite' else []) + [[0, 0.25, 0.0], 1.0, [1.0, -1.0], [[[], []]]]
     mod = ctx.drv.ask1(op, *args)
     mod = 'err' if mod == 'err' else 'ok'
     ctx.count('empty_cohort_error_enum_checked')
-    return Outcome(corr_fail=None if impl == mod else f'{which} on an empty cohort: impl {impl} vs model {mod}',
-                   nontrivial=False, tags=(f'kind=mime_empty/{which}',))
+    return Outcome(corr_fail=(f'{which} on an empty cohort returned non-finite params' if impl == 'non-finite' else None),
+                   nontrivial=False, tags=(f'kind=mime_empty/{which}', f'empty_cohort_impl={impl}', f'model={mod}'))
 
   def evaluate(self, case, ctx):
+    if case['kind'] in ('fedprox0', 'fedprox') and case.get('mus'):
+      # a sweep: all algorithms are built first (shared loss / client optimizer objects), then each is judged
+      self._shared = {'copt': self.mk_opt(case['copt']), 'algs': {}}
+      try:
+        subs = [{**{k: v for k, v in case.items() if k != 'mus'}, 'mu': mu, 'kind': 'fedprox0' if mu == 0 else 'fedprox'}
+                for mu in case['mus']]
+        for sub in subs:
+          self.alg(sub['kind'], sub)
+        last = None
+        for i, sub in enumerate(subs):
+          out = self._evaluate(sub, ctx)
+          if out.oracle_fail or out.corr_fail:
+            note = f'[fed_prox #{i + 1} of a sweep built with proximal weights {case["mus"]} on one loss/optimizer object, mu={sub["mu"]}] '
+            return Outcome(oracle_fail=note + out.oracle_fail if out.oracle_fail else None,
+                           corr_fail=note + out.corr_fail if out.corr_fail else None, key=out.key,
+                           nontrivial=out.nontrivial, tags=out.tags + ('sweep=True',), detail=out.detail)
+          last = out if (last is None or out.nontrivial) else last
+        return Outcome(nontrivial=last.nontrivial, tags=last.tags + (f'sweep={len(subs)}',), detail=last.detail)
+      finally:
+        self._shared = None
+    return self._evaluate(case, ctx)
+
+  def _evaluate(self, case, ctx):
     kind = case['kind']
     if kind == 'mime_empty':
       return self._eval_empty(case, ctx)
@@ -571,10 +621,8 @@ class C12(core.Property):
           if not close(out[ri][0], mp, scale):
             corr.append(f'round {ri}: {kind} model params {mp} vs impl {out[ri][0].tolist()}')
             break
-          stateful = (case['copt'] if kind in ('mimelite', 'mime') else case['sopt'])[0] != 'sgd'
-          if stateful and out[ri][1] is not None and not close(out[ri][1], mo, scale + float(np.max(np.abs(mo)))):
-            corr.append(f'round {ri}: {kind} model optimizer state {mo} vs impl {out[ri][1].tolist()}')
-            break
+          # (the optimizer state is not compared: its representation is optax's / the algorithm's business; a wrong
+          # state shows in the next round's params)
       ctx.count(f'model_{kind}')
       # ... and the real FedAvg of the comparison with the FedAvg model (same encoding)
       if reference is not None and ref_name == 'real FedAvg' and not corr:
